@@ -164,7 +164,10 @@ def make_schedule(rng, payload, first_small=False):
 
 def pick_chunk(rng, n):
     r = rng.random()
-    if r < 0.15:
+    if r < 0.12:
+        # any size between 1 and the length of the input (the fixed list below leaves 9..62, 65..999, ... out)
+        return rng.randint(1, max(1, n))
+    if r < 0.25:
         return rng.choice([max(1, n - 1), max(1, n), n + 1])
     if r < 0.55:
         return rng.choice([1, 2, 3, 4, 5])
